@@ -27,6 +27,7 @@ PROVED = [
     "svg.parsePreserveAspectRatio, parseURL stripping, newPainter, parseValue, parseOpacity, parseFontWeight (Css/SvgAttr.v)",
     "css/parser.ParseColor control flow incl. parseCommaSeparated / rgb / rgba / hsl / hsla / hash colours (Css/ColorMq.v parse_color)",
     "html/tree.parseMediaQuery, pa.SplitOnComma, the @import prelude (Css/ColorMq.v parse_media_query, import_media)",
+    "utils.parseW3cDate + toInt + the w3CDateRe regular expression as a recursive-descent recogniser: <meta name=dcterms.created / dcterms.modified> (Css/W3cDate.v parse_w3c_date, match_w3c)",
 ]
 TESTED_ONLY = [
     "css/validation: ~300 property validators and shorthand expanders through PreprocessDeclarations (component decl, styleattr)",
@@ -34,6 +35,7 @@ TESTED_ONLY = [
     "html/tree.NewCSSDefault on whole stylesheets: @page/@media/@import/@font-face/@counter-style/@namespace, nested rules (stylesheet)",
     "css/selector.ParseGroup (selector)", "svg.Parse on whole documents (svg)", "utils.DefaultUrlFetcher on data: URLs incl. base64 (dataurl-fetch)",
     "tree.NewHTML + GetAllComputedStyles with presentational hints + boxes.BuildFormattingStructure + GetMetadata on documents with malformed attributes (html)",
+    "tree.NewHTML + GetMetadata (utils.GetHtmlMetadata): <title>, <meta name content> (keywords, author, W3C dates with digit runs of every length in every numeric field), <link rel=attachment> (metadata)",
     "css/parser.ParseColorString (color), css/parser Tokenize/ParseStylesheet/ParseDeclarationList/Serialize on mutated text (cssparse)",
 ]
 
@@ -63,9 +65,10 @@ SPEC = {
         "par": "C07_parse_preserve_aspect_ratio_total", "svgvalue": "C07_parse_value_total", "svgopacity": "C07_parse_opacity_total",
         "svgurl": "C07_parse_url_strip_total", "painter": "C07_new_painter_total", "fontweight": "C07_parse_font_weight_total",
         "colortok": "C07_parse_color_total", "media": "C07_parse_media_query_total",
+        "w3cdate": "C07_parse_w3c_date_total / C07_to_int_total_bounded / C07_w3c_groups_bounded",
         "deep": "the property text (terminates on every input, no crash); components of C05/C06 and the tested-only ones",
     },
-    "rule": "one SplitMix64 seed; regression corpus first; deterministic boundary streams (go/cmd/c07/edge.go, ~28000 inputs, tag edge): the end of input after EVERY BYTE of well-formed inputs of every component (the CSS constructs of go/cssedge covering each scanner and look-ahead of the tokenizer, one valid value per property / descriptor, whole stylesheets, selectors, @page selectors, An+B, media queries, colours, data: URLs, percent-encoded strings, HTML and SVG attribute values) and exhaustive neighbourhoods (per tokenizer scanner: entering heads + all short strings over the symbols it distinguishes; all strings of length <= 4 over {%, hex, non-hex} for the percent decoders; data: + all short strings over the separators of parseDataURL); then the random streams: property values = sequences of atoms each property accepts alone (discovered at start-up from a dictionary harvested from /repo's validator sources) then mutated (delete, duplicate, swap unit, f(), var() insertion, huge numbers, nesting, stray delimiters, truncation); at-rules, selectors, SVG documents, data: URLs, HTML attribute documents from pools of valid and malformed fragments with byte-level mutations; non-trivial = non-empty input; distinct by (component, input)",
+    "rule": "one SplitMix64 seed; regression corpus first; deterministic boundary streams (go/cmd/c07/edge.go, ~28000 inputs, tag edge): the end of input after EVERY BYTE of well-formed inputs of every component (the CSS constructs of go/cssedge covering each scanner and look-ahead of the tokenizer, one valid value per property / descriptor, whole stylesheets, selectors, @page selectors, An+B, media queries, colours, data: URLs, percent-encoded strings, HTML and SVG attribute values), W3C dates of <meta> with every numeric field of every shape replaced by digit runs of every length 0..300 and the int64 / uint64 boundary numbers (through parseW3cDate and through NewHTML + GetMetadata) and exhaustive neighbourhoods (per tokenizer scanner: entering heads + all short strings over the symbols it distinguishes; all strings of length <= 4 over {%, hex, non-hex} for the percent decoders; data: + all short strings over the separators of parseDataURL); then the random streams: property values = sequences of atoms each property accepts alone (discovered at start-up from a dictionary harvested from /repo's validator sources) then mutated (delete, duplicate, swap unit, f(), var() insertion, huge numbers, nesting, stray delimiters, truncation); at-rules, selectors, SVG documents, data: URLs, HTML attribute documents from pools of valid and malformed fragments with byte-level mutations; non-trivial = non-empty input; distinct by (component, input)",
 }
 MANIFEST = {
     "text": "Coq totality theorems (result is Ok for ALL inputs, every slice/index a Panic site, loops on fuel) for hand ports of percent-decoding, data: URI splitting, An+B, @page selectors, HTML integer attributes and the SVG attribute parsers; refutations with witnesses for the code as found (@page :nth(of), preserveAspectRatio=\"abc\"); each model is compared with /repo on generated inputs on every run. Validators / expanders / descriptor parsers and whole-document entry points are TESTED on every run (30k malformed inputs in watchdog-ed workers), not proved.",
